@@ -116,6 +116,8 @@ pub struct Harness {
     pub revoked_http_tokens: Vec<String>,
     /// errors are being injected on the state journal (C06's journal-fault arm)
     pub journal_faults: bool,
+    /// journal-fault arm: the audit after the first injected journal error has run
+    pub journal_fault_met: bool,
     pub log: Vec<String>,
     pub verbose: bool,
     pub key_affinity: BTreeMap<(u32, u32, Vec<u8>, u32), u32>,
@@ -227,6 +229,7 @@ impl Harness {
             http_twins: BTreeMap::new(),
             revoked_http_tokens: Vec::new(),
             journal_faults: false,
+            journal_fault_met: false,
             http_rng: crate::rng::Rng::substream(0x4854_5450, "http-route"),
             log: Vec::new(),
             verbose: std::env::var("VERIF_VERBOSE").is_ok(),
@@ -281,7 +284,13 @@ impl Harness {
         let mut prop = prop;
         let mut oracle = oracle;
         if self.journal_faults && self.sim.inner.fs.borrow().fired.iter().any(|f| f.0 == crate::rt::PathClass::StateLog) {
-            // everything seen after an injected journal error carries the cause class
+            if !self.journal_fault_met && oracle == "valid_command_fails" {
+                // the command that met the injected journal error may fail: what it must not do is change
+                // anything, which the audit at the end of this step decides
+                self.stats.probe("command_failed_at_the_journal");
+                return;
+            }
+            // what that audit finds carries the cause class
             tag.push_str("@journal_fault");
         }
         if !self.opts.props.contains(prop) && !self.opts.props.contains("*") {
@@ -600,6 +609,16 @@ impl Harness {
                     }
                 }
             }
+        }
+        if self.journal_faults && !self.journal_fault_met && self.sim.inner.fs.borrow().fired.iter().any(|f| f.0 == crate::rt::PathClass::StateLog) {
+            // journal-fault arm: the first operation that met an injected journal error is judged at once by a
+            // full audit against the model (in which a refused command changed nothing), and the history ends
+            // there: a model cannot follow a server whose memory and journal disagree
+            self.journal_fault_met = true;
+            self.sim.arm_faults(false);
+            self.stats.probe("audit_after_journal_fault");
+            self.audit().await;
+            self.fatal = true;
         }
         self.state_hashes.insert(self.model.state_hash());
         self.op_index += 1;
